@@ -1502,6 +1502,31 @@ func evmGenBody0(r *Rng, self int, depth int, s evmSetup) []evmInstr {
 			body = append(body, ins)
 			continue
 		}
+		if self >= aC1 && self <= aC3 && depth < 3 && r.Chance(5) {
+			// a slot is changed by this frame and written back to the value it had before the transaction (0) by a
+			// nested frame of the same contract that fails: the write-back must be undone with the frame
+			k := uint64(r.Intn(3))
+			inner := []evmInstr{{Op: "sstore", K: k, V: 0}}
+			if r.Chance(40) {
+				inner = append(inner, evmInstr{Op: "sstore", K: uint64(r.Intn(3)), V: uint64(r.Intn(4))})
+			}
+			if r.Chance(30) {
+				inner = append(inner, evmInstr{Op: "log"})
+			}
+			inner = append(inner, evmInstr{Op: "revert"})
+			via := evmInstr{Op: "call", Addr: self, Catch: true, Record: r.Chance(50), Body: inner}
+			if r.Chance(30) { // re-entered through another contract, which propagates the failure
+				o := []int{aC1, aC2, aC3}[r.Intn(3)]
+				if o != self {
+					via = evmInstr{Op: "call", Addr: o, Catch: true, Record: r.Chance(50), Body: []evmInstr{{Op: "call", Addr: self, Body: inner}}}
+				}
+			}
+			body = append(body, evmInstr{Op: "sstore", K: k, V: uint64(1 + r.Intn(3))}, via)
+			if r.Chance(50) {
+				body = append(body, evmInstr{Op: "sstore", K: uint64(r.Intn(3)), V: uint64(r.Intn(4))})
+			}
+			continue
+		}
 		k := r.Intn(100)
 		switch {
 		case k < 22:
